@@ -160,6 +160,18 @@ class NatSpec(object):
             warnings.simplefilter("ignore")
             return getattr(np, name)(np.asarray(arr), axis=axis, **kw)
 
+    def prod(self, sizes):
+        r = 1
+        for x in sizes:
+            r *= int(x)
+        return r
+
+    def rowmajor(self, idx, sizes):
+        g = 0
+        for i, n_ in zip(idx, sizes):
+            g = g * int(n_) + int(i)
+        return g
+
     def sort_rank(self, arr):
         return np.argsort(np.argsort(np.asarray(arr), kind="stable"), kind="stable")
 
